@@ -1,0 +1,65 @@
+//go:build verif
+
+package sorting
+
+// Contracts for govc (see /verif/DESIGN.md, C13). Comment-only file.
+//
+// Every comparator is specified by a relation over the keys alone; the relation is shown to be
+// a strict total order on distinct keys (irreflexive, transitive, and any two distinct keys are
+// ordered one way) by lemmas. Then every permutation of the same data sorts to the same
+// sequence (sort.Sort assumed correct): the order is a function of the data only.
+
+//@ smt
+//@ ; ns_less(f, a, b): what NameSorter value f answers for (a, b)
+//@ (declare-fun ns_less (Int Str Str) Bool)
+//@ ; "numeric": numbers (by magnitude, ties by text) before non-numbers (by text)
+//@ (define-fun smart_less ((sma Str) (smb Str)) Bool
+//@   (ite (and (float_ok sma) (float_ok smb)) (ite (= (atof sma) (atof smb)) (str_lt sma smb) (< (atof sma) (atof smb)))
+//@     (ite (float_ok sma) true (ite (float_ok smb) false (str_lt sma smb)))))
+//@ ; "value": by value, ties by the fallback name order f
+//@ (define-fun value_less ((vf Int) (va Int) (vna Str) (vb Int) (vnb Str)) Bool
+//@   (ite (= va vb) (ns_less vf vna vnb) (< va vb)))
+//@ end
+
+//@ functype rare/pkg/aggregation/sorting.NameSorter
+//@   params (this, a, b)
+//@   pure
+//@   ensures result == ns_less(this, a, b)
+//@ nonnil rare/pkg/aggregation/sorting.NameSorter
+
+//@ func ByName
+//@   pure
+//@   ensures result == (a < b)
+
+//@ func ByNameSmart
+//@   pure
+//@   ensures result == smart_less(a, b)
+//@ lemma smart-irreflexive : forall a: str :: !smart_less(a, a)
+//@ lemma smart-transitive : forall a: str :: forall b: str :: forall c: str :: smart_less(a, b) && smart_less(b, c) ==> smart_less(a, c)
+//@ lemma smart-total : forall a: str :: forall b: str :: a != b ==> smart_less(a, b) || smart_less(b, a)
+
+//@ func ValueSorterEx$1
+//@   pure
+//@   ensures result == value_less(*fallback, a.Value, a.Name, b.Value, b.Name)
+//@ lemma value-irreflexive : forall f: int :: (forall x: str :: !ns_less(f, x, x)) ==> forall v: int :: forall n: str :: !value_less(f, v, n, v, n)
+//@ lemma value-transitive : forall f: int :: (forall x: str :: forall y: str :: forall z: str :: ns_less(f, x, y) && ns_less(f, y, z) ==> ns_less(f, x, z)) ==>
+//@     forall va: int :: forall na: str :: forall vb: int :: forall nb: str :: forall vc: int :: forall nc: str :: value_less(f, va, na, vb, nb) && value_less(f, vb, nb, vc, nc) ==> value_less(f, va, na, vc, nc)
+//@ lemma value-total : forall f: int :: (forall x: str :: forall y: str :: x != y ==> ns_less(f, x, y) || ns_less(f, y, x)) ==>
+//@     forall va: int :: forall na: str :: forall vb: int :: forall nb: str :: !(va == vb && na == nb) ==> value_less(f, va, na, vb, nb) || value_less(f, vb, nb, va, na)
+
+//@ func ValueNilSorter$1
+//@   pure
+//@   ensures result == ns_less(*sorter, a.Name, b.Name)
+
+// Reverse negates: on distinct keys of a strict total order that is the converse order
+//@ lemma reverse-converse : forall f: int :: (forall x: str :: forall y: str :: x != y ==> (ns_less(f, x, y) || ns_less(f, y, x)) && !(ns_less(f, x, y) && ns_less(f, y, x))) ==>
+//@     forall a: str :: forall b: str :: a != b ==> (!ns_less(f, a, b)) == ns_less(f, b, a)
+
+//@ func inferSortSetByValue
+//@   pure
+
+// The contextual and date comparators must be functions of (a, b) alone.
+//@ func ByContextualEx$1 at "set = inferSortSetByValue(a)"
+//@   pure
+//@ func ByDate$1 at "dateparse.ParseFormat(a)"
+//@   pure
